@@ -2,6 +2,7 @@ SPECIFICATION Spec
 CONSTANTS
   Rich = TRUE
   BigCounts = {998, 999, 1000, 1001}
+  DenseCounts <- DenseThorough
 INVARIANT InvRoundTrip
 INVARIANT InvColumns
 INVARIANT InvVersion
